@@ -570,6 +570,40 @@ theorem content_key_path_confined (base : APath) (ekey : List Nat) (hb : dotdot 
       (fun hm => hhex _ (List.mem_of_mem_drop (List.mem_of_mem_take hm)) rfl) e.symm
   · exact ne_dotdot_of_no_dot _ (fun hm => hhex _ (List.mem_of_mem_drop hm) rfl) e.symm
 
+/-- `format_content_key_path` is injective: two 9-byte keys (any byte strings) with one trie path
+are the same key. The two directory levels and the leaf are fixed-width slices of one zero-padded
+hex text, so no byte below 0x10 can lend a digit to its neighbour (the unpadded `{:x}` leaf would
+send 01 23 and 12 03 to one file). -/
+theorem content_key_path_injective (base : APath) (k1 k2 : List Nat)
+    (h1 : ∀ b ∈ k1, b < 256) (h2 : ∀ b ∈ k2, b < 256)
+    (h : contentKeyPath base k1 = contentKeyPath base k2) : k1 = k2 := by
+  unfold contentKeyPath at h
+  have h' := List.append_cancel_left h
+  simp only [List.cons.injEq, and_true] at h'
+  obtain ⟨ha, hb, hc⟩ := h'
+  apply hexEncode_injective k1 k2 h1 h2
+  rw [← List.take_append_drop 2 (hexEncode k1), ← List.take_append_drop 2 (hexEncode k2), ha]
+  congr 1
+  rw [← List.take_append_drop 2 (List.drop 2 (hexEncode k1)),
+    ← List.take_append_drop 2 (List.drop 2 (hexEncode k2)), hb]
+  congr 1
+  simpa [List.drop_drop] using hc
+
+/-- ⟂ test (not a theorem about the code): without zero padding the leaf is not injective. -/
+example :
+    let leaf (k : List Nat) : Str := (k.map fun b => (Nat.toDigits 16 b)).flatten
+    leaf [0x01, 0x23] = leaf [0x12, 0x03] ∧ hexEncode [0x01, 0x23] ≠ hexEncode [0x12, 0x03] := by
+  decide
+
+/-- `lru_file_path` is injective in the generation (`u64`). -/
+theorem lru_file_path_injective (dir : APath) (g1 g2 : Nat) (h1 : g1 < 2 ^ 64) (h2 : g2 < 2 ^ 64)
+    (h : lruFilePath dir g1 = lruFilePath dir g2) : g1 = g2 := by
+  unfold lruFilePath at h
+  have h' := List.append_cancel_left h
+  simp only [List.cons.injEq, and_true] at h'
+  exact be64_injective g1 g2 h1 h2
+    (hexEncode_injective _ _ (be64_bytes g1) (be64_bytes g2) (List.append_cancel_right h'))
+
 /-- `lru_file_path`: one 20-character component below the directory, for every generation. -/
 theorem lru_file_path_confined (dir : APath) (generation : Nat) (hd : dotdot ∉ dir) :
     confined dir (lruFilePath dir generation) ∧
